@@ -6,6 +6,7 @@ package main
 //
 //	70 NumToString[int] x      71 NumToString[c13Level] x   72 NumToString[uint8] x   76 NumToString[uint64] x
 //	73 N[int] text             74 N[c13Level] text          75 N[uint8] text          77 N[uint64] text
+//	78 Bound[int]{lo,hi}.Enclose(n)                         79 Bound[int8]{lo,hi}.Enclose(n)
 //
 // A text travels as the list of its bytes; a uint64 as the int64 with the same bits; an error
 // of N (whatever its kind) as [1 1], with the zero value it returns beside it ignored.
@@ -17,7 +18,7 @@ import (
 	"github.com/esimov/gogu"
 )
 
-func c13IsNumFn(fn int) bool { return fn >= 70 && fn <= 77 }
+func c13IsNumFn(fn int) bool { return fn >= 70 && fn <= 79 }
 
 func c13TextOut(s string) []int64 {
 	out := []int64{int64(len(s))}
@@ -38,6 +39,12 @@ func execC13Num(fn int, r *R) []int64 {
 		return c13TextOut(gogu.NumToString(uint8(r.Int())))
 	case 76:
 		return c13TextOut(gogu.NumToString(uint64(r.Int())))
+	case 78: // Bound[int]{lo, hi}.Enclose(n)
+		lo, hi, n := r.Int(), r.Int(), r.Int()
+		return []int64{b2i(gogu.Bound[int]{Min: lo, Max: hi}.Enclose(n))}
+	case 79: // Bound[int8]{lo, hi}.Enclose(n)
+		lo, hi, n := r.Int(), r.Int(), r.Int()
+		return []int64{b2i(gogu.Bound[int8]{Min: int8(lo), Max: int8(hi)}.Enclose(int8(n)))}
 	case 73:
 		v, err := gogu.N[int](r.Bytes())
 		if err != nil {
@@ -112,6 +119,30 @@ func genC13Num(g *Gen, emit func(stream string, nt bool, w *W)) {
 		"00000000000000000000128", "-00000000000000000000128", "+00000000000000000000127"} {
 		for _, fn := range []int{73, 74, 75, 77} {
 			emit("num-malformed", true, (&W{}).Int(fn).Bytes(t))
+		}
+	}
+	// Bound.Enclose called directly: a small cube, the limits of int8 (Abs(-128) = -128) and of int64
+	for lo := -3; lo <= 3; lo++ {
+		for hi := -3; hi <= 3; hi++ {
+			for n := -4; n <= 4; n++ {
+				emit("num", true, (&W{}).Int(78).Int(lo).Int(hi).Int(n))
+			}
+		}
+	}
+	e8 := []int{-128, -127, -126, -1, 0, 1, 126, 127}
+	for _, lo := range e8 {
+		for _, hi := range e8 {
+			for _, n := range e8 {
+				emit("num", true, (&W{}).Int(79).Int(lo).Int(hi).Int(n))
+			}
+		}
+	}
+	e64 := []int64{math.MinInt64, math.MinInt64 + 1, -1, 0, 1, math.MaxInt64 - 1, math.MaxInt64}
+	for _, lo := range e64 {
+		for _, hi := range e64 {
+			for _, n := range e64 {
+				emit("num", true, (&W{}).Int(78).I64(lo).I64(hi).I64(n))
+			}
 		}
 	}
 	// seeded random values and texts: mostly digit strings of every length up to 22, some noise
